@@ -68,7 +68,7 @@ pub struct Cfg {
   pub ops: usize,
   pub seed: u64,
   pub kf: Vec<String>,
-  /// emphasis: "mix" | "close" | "async" | "batch" | "teardown" | "parked"
+  /// emphasis: "mix" | "close" | "async" | "batch" | "teardown" | "parked" | "life" (mostly clone / close / convert / drop)
   pub profile: String,
 }
 
@@ -90,6 +90,8 @@ struct St {
   /// the estimate may be off (a polled future was cancelled): avoid blocking calls
   uncertain: bool,
   parked: bool,
+  /// how often a clone is taken of a handle that was itself closed (the "close" profile does it often)
+  clone_closed_pct: u32,
   max_futs: usize,
 }
 
@@ -157,6 +159,7 @@ pub fn run_program(cfg: &Cfg) {
     len: 0,
     uncertain: false,
     parked: cfg.profile == "parked",
+    clone_closed_pct: if cfg.profile == "close" || cfg.profile == "life" { 70 } else { 6 },
     // profile "parked": more waiters than capacity pile up before anybody serves them
     max_futs: if cfg.profile == "parked" { cap.max(1) + 2 + (cfg.seed % 2) as usize } else { 3 + (cfg.seed % 3) as usize },
   };
@@ -169,11 +172,11 @@ pub fn run_program(cfg: &Cfg) {
       break;
     }
   }
-  teardown(&mut st);
+  teardown(&mut st, cfg);
   hist::rec_end();
 }
 
-fn teardown(st: &mut St) {
+fn teardown(st: &mut St, cfg: &Cfg) {
   // everything goes, in a random order: futures first on their handle
   loop {
     let alive: Vec<usize> = (0..st.hs.len()).filter(|&i| st.hs[i].hd.is_some()).collect();
@@ -189,6 +192,20 @@ fn teardown(st: &mut St) {
     let i = *pick(&mut st.rng, &alive);
     drop_handle(st, i);
     st.quiesce();
+    // the handles that are left keep working while the others go: what they report after each departure
+    // (Closed / Disconnected exactly when the other side is gone and the buffer is drained) is judged too
+    if st.rng.random_bool(0.5) {
+      let alive: Vec<usize> = (0..st.hs.len()).filter(|&i| st.hs[i].hd.is_some()).collect();
+      if !alive.is_empty() {
+        let j = *pick(&mut st.rng, &alive);
+        if matches!(st.hs[j].hd, Some(Hd::Tx(_))) {
+          send_op(st, j, cfg);
+        } else {
+          recv_op(st, j, cfg);
+        }
+        st.quiesce();
+      }
+    }
   }
 }
 
@@ -251,10 +268,15 @@ fn step(st: &mut St, cfg: &Cfg) {
     }
   }
   let life = match p {
-    "close" | "teardown" => 14,
+    "close" => 20,
+    "life" => 50,
+    "teardown" => 14,
     "parked" => 9,
     _ => 5,
   };
+  // profile "life": one side goes through clone / close / convert / drop all the time, the other side
+  // stays and observes (which side is which depends on the program seed)
+  let life = if p == "life" && matches!(st.hs[i].hd, Some(Hd::Tx(_))) == (cfg.seed % 2 == 1) { 2 } else { life };
   let roll = st.rng.random_range(0..100);
   if roll < life {
     lifecycle(st, i);
@@ -307,7 +329,7 @@ fn lifecycle(st: &mut St, i: usize) {
   }
   // cloning a handle that was itself closed is exercised, but rarely: it runs into the
   // known finding F24 (the clone revives a side that is gone) and ends the judged part
-  let clone_ok = !st.hs[i].closed || st.rng.random_range(0..100) < 6;
+  let clone_ok = !st.hs[i].closed || st.rng.random_range(0..100) < st.clone_closed_pct;
   let clone_w = if st.parked { 50 } else { 30 };
   if roll < clone_w && info.clone && clone_ok && st.count(is_tx) < 3 && !(busy && info.fut_excl) {
     let d = match &st.hs[i].hd {
